@@ -176,7 +176,9 @@ class CompiledValue(Value):
         return ValueSet([create_from_access_path(self.inference_state, access)])
 
     def py__getitem__(self, index_value_set, contextualized_node):
-        all_access_paths = self.access_handle.py__getitem__all_values()
+        all_access_paths = self.access_handle.py__getitem__all_values(
+            safe=not self.inference_state.allow_unsafe_executions
+        )
         if all_access_paths is None:
             # This means basically that no __getitem__ has been defined on this
             # object.
